@@ -250,6 +250,10 @@ def intersection (known : Bytes → Bool) (names : List Bytes) : List Bytes := n
 
 /-- `responseWriter.writeEnd`. -/
 def writeEnd (st : St) (e : RespEnd) (wasInHeaders : Bool) : St :=
+  let st :=
+    match wasInHeaders, st.rw.respMeta with
+    | false, some rm => { st with sink := { st.sink with hdr := (httpExtractTrailers st.sink.hdr rm.pendingTrailerKeys).2 } }
+    | _, _ => st
   let st := { st with sink := encodeEnd st.op.cform e wasInHeaders st.sink }
   { st with rw := { st.rw with endWritten := true } }
 
